@@ -34,6 +34,11 @@ static rc::Gen<std::string> num_gen(int lo, int hi) {
     else snprintf(b, sizeof b, "%d", v);
     if (!g_valid_only && *vf::range<int>(0, 40) == 0) return std::string("99999999999999999999");
     if (!g_valid_only && *vf::range<int>(0, 30) == 0) { char w[32]; snprintf(w, sizeof w, "%lld", 4294967296LL * *vf::range<int>(1, 2) + v); return std::string(w); }  // in range only modulo 2^32
+    if (!g_valid_only && *vf::range<int>(0, 40) == 0) {  // in range only modulo 2^64 (20 digits)
+      unsigned __int128 big = ((unsigned __int128)*vf::range<int>(1, 3) << 64) + (unsigned __int128)(v < 0 ? 0 : v);
+      std::string d; while (big) { d.insert(d.begin(), (char)('0' + (int)(big % 10))); big /= 10; }
+      return d;
+    }
     if (!g_valid_only && *vf::range<int>(0, 40) == 0) return std::string("");
     return b;
   });
@@ -99,7 +104,28 @@ static std::string mutate(std::string s) {
   return s;
 }
 
-static bool replay(const vf::Case& c, std::string* why) { return c16::oracle(vf::unhex(c.get("spec_hex")), why); }
+// The strings parsed most recently in this process are part of every case ("history_hex"): an answer that depends on
+// earlier calls (a cache, a static buffer) is then reproducible from the case alone.
+static std::vector<std::string> g_recent;
+static void remember(const std::string& s) { g_recent.push_back(s); if (g_recent.size() > 3) g_recent.erase(g_recent.begin()); }
+static std::string recent_hex() { std::string t; for (auto& h : g_recent) t += vf::hex(h) + ","; return t; }
+static void replay_history(const vf::Case& c) {
+  std::istringstream is(c.get("history_hex")); std::string tok, w;
+  while (std::getline(is, tok, ',')) c16::oracle(vf::unhex(tok), &w);
+}
+// A, then a near miss B of A, then A again: the answer for A must not depend on what was parsed before it
+static bool oracle_sequence(const std::string& a, const std::string& b, std::string* why) {
+  if (!c16::oracle(a, why)) return false;
+  std::string w2;
+  if (!c16::oracle(b, &w2)) { *why = "second string of the sequence: " + w2; return false; }
+  if (!c16::oracle(a, why)) { *why = "the same string parsed again after '" + vf::esc(b) + "': " + *why; return false; }
+  return true;
+}
+static bool replay(const vf::Case& c, std::string* why) {
+  replay_history(c);
+  if (c.has("then_hex")) return oracle_sequence(vf::unhex(c.get("spec_hex")), vf::unhex(c.get("then_hex")), why);
+  return c16::oracle(vf::unhex(c.get("spec_hex")), why);
+}
 
 static void run(const vf::Args& a, vf::Evidence& ev, vf::Reporter& rep) {
   EV = &ev;
@@ -107,7 +133,7 @@ static void run(const vf::Args& a, vf::Evidence& ev, vf::Reporter& rep) {
             "with 1-3 parts, signs, leading zeros, values at and just beyond 24/59/167; dates Jn/n/Mm.w.d at and beyond "
             "their bounds and truncated forms; with/without dst, dst offset, rules, extra or missing fields, trailing "
             "bytes), 0-2 single edits (replace/insert/delete/drop-field incl. NUL and 8-bit bytes), and random strings. "
-            "Oracle: acceptance and every field vs posixref; two calls with differently pre-filled result structs agree. "
+            "A third of the accepted sentences are followed by a near miss and then parsed again (no state between calls); numbers that are in range only modulo 2^32 or 2^64. Oracle: acceptance and every field vs posixref; two calls with differently pre-filled result structs agree. "
             "Non-trivial = accepted by the grammar, or within one edit of a generated grammar sentence; distinct by content.";
   long budget = a.budget(60000, 1500000);
   vf::rc_run("C16.sentences", a.stream_seed(1), (int)budget, rep, [&]() {
@@ -116,9 +142,10 @@ static void run(const vf::Args& a, vf::Evidence& ev, vf::Reporter& rep) {
     for (int i = 0; i < nmut; ++i) s = mutate(s);
     if (*vf::range<int>(0, 30) == 0) s = *rc::gen::container<std::string>(rc::gen::arbitrary<char>());
     bool acc = false; std::string why;
-    vf::Case c; c.set("spec_hex", vf::hex(s)); c.set("spec_printable", vf::esc(s));
+    vf::Case c; c.set("spec_hex", vf::hex(s)); c.set("spec_printable", vf::esc(s)); c.set("history_hex", recent_hex());
     vf::CurrentScope cur([&]() { return c; });
     bool ok = c16::oracle(s, &why, &acc);
+    remember(s);
     EV->eval();
     EV->cls(acc ? "grammar_accepts" : "grammar_rejects");
     if (acc) { px::Posix p; px::parse(s, &p); EV->cls(p.has_dst ? "accepted_with_dst_rules" : "accepted_std_only"); }
@@ -126,6 +153,19 @@ static void run(const vf::Args& a, vf::Evidence& ev, vf::Reporter& rep) {
     if (acc || nmut <= 1) EV->nt(vf::fnv(s));
     if (EV->want_sample(acc ? "accepted" : "rejected")) EV->sample(acc ? "accepted" : "rejected", vf::esc(s));
     if (!ok) { rep.failing(c, why); RC_FAIL(why); }
+    if (acc && *vf::range<int>(0, 2) == 0) {
+      // call history: a near miss of the accepted sentence (a dropped field, a truncated rule ...) is parsed next, then the
+      // sentence again
+      std::string b = mutate(s);
+      if (*vf::range<int>(0, 1)) b = s.substr(0, s.size() - std::min<size_t>(s.size(), (size_t)*vf::range<int>(1, 6)));
+      vf::Case c2; c2.set("history_hex", recent_hex()); c2.set("spec_hex", vf::hex(s)); c2.set("then_hex", vf::hex(b)); c2.set("spec_printable", vf::esc(s)); c2.set("then_printable", vf::esc(b));
+      vf::CurrentScope cur2([&]() { return c2; });
+      EV->eval(2); EV->cls("sentence_then_near_miss_then_sentence_again");
+      std::string why2;
+      const bool ok2 = oracle_sequence(s, b, &why2);
+      remember(b); remember(s);
+      if (!ok2) { rep.failing(c2, why2); RC_FAIL(why2); }
+    }
   });
 }
 
